@@ -9,7 +9,7 @@ identity set order in pristine forks.
 import copy
 
 from .. import seeds, shrink
-from ..pool import Pool, unwrap
+from ..pool import Pool, Skips, unwrap
 from ..workload import gen_workload
 
 PROP = "C07"
@@ -125,7 +125,8 @@ def run(ctx):
     distinct, samples = set(), []
     stats = {"skipped_raising": 0, "compared": 0, "registry_points": 0}
     with Pool(ctx.jobs, instrument=True) as pool:
-        res = [unwrap(r) for r in pool.map("pipeline:job_infer_canon", jobs)]
+        skips = Skips(limit=max(5, len(jobs) // 200))
+        res = [skips.take(r) for r in pool.map("pipeline:job_infer_canon", jobs, timeout=45)]
         base_res = {}
         for (bi, plan), r in zip(meta, res):
             if plan is None:
@@ -134,6 +135,8 @@ def run(ctx):
             if plan is None:
                 continue
             b = base_res[bi]
+            if b is None or r is None:
+                continue  # a job ran into its time limit: not judged (counted in jobs_timed_out)
             if "text" not in b or "text" not in r:
                 stats["skipped_raising"] += 1
                 continue
@@ -163,6 +166,7 @@ def run(ctx):
                 "two different samples or a sample is repeated; distinct by digest(workload, options, plan)",
         "samples": samples,
         "bases": len(bases), "variants_per_base": k_var, **stats, "glob_channel": glob_stats,
+        "jobs_timed_out_not_judged": skips.timeouts,
         "fault_kinds": {"reorder_delivery": sum(1 for m in meta if m[1] and any(p["perm"] != sorted(p["perm"]) for p in m[1])),
                         "duplicate_delivery": sum(1 for m in meta if m[1] and any(p["dups"] for p in m[1]))},
         "simulated_time": "none",
